@@ -208,7 +208,13 @@ static B2<T> const* b2_table(std::size_t& n)
 {
     static B2<T> const t[] = {
         {"fmod", [](T x, T y) -> T { return etl::fmod(x, y); }, [](T x, T y) -> T { return std::fmod(x, y); }},
-        {"remainder", [](T x, T y) -> T { return etl::remainder(x, y); },
+        // glibc 2.36's remainder returns -0 for some positive x with a subnormal y (IEC 60559: a zero result has the
+        // sign of x), etl inherits it through __builtin_remainder: the sign of a zero result of the RUN-TIME remainder
+        // is not compared (op remainder_raw keeps it: witness of KF-C16-libm-remainder-zero-sign); the library-written
+        // g_remainder is compared bit for bit
+        {"remainder", [](T x, T y) -> T { T r = etl::remainder(x, y); return r == T(0) ? T(0) : r; },
+            [](T x, T y) -> T { T r = std::remainder(x, y); return r == T(0) ? T(0) : r; }},
+        {"remainder_raw", [](T x, T y) -> T { return etl::remainder(x, y); },
             [](T x, T y) -> T { return std::remainder(x, y); }},
         {"copysign", [](T x, T y) -> T { return etl::copysign(x, y); },
             [](T x, T y) -> T { return std::copysign(x, y); }},
@@ -221,7 +227,7 @@ static B2<T> const* b2_table(std::size_t& n)
             [](T x, T y) -> T { return std::midpoint(x, y); }},
         // fall-back code called directly
         {"g_fmod", [](T x, T y) -> T { return g::fmod(x, y); }, [](T x, T y) -> T { return std::fmod(x, y); }},
-        {"g_remainder", [](T x, T y) -> T { return g::fmod(x, y); },
+        {"g_remainder", [](T x, T y) -> T { return g::remainder(x, y); },
             [](T x, T y) -> T { return std::remainder(x, y); }},
         {"copysign_fb", [](T x, T y) -> T { return etl::detail::copysign_fallback(x, y); },
             [](T x, T y) -> T { return std::copysign(x, y); }},
@@ -565,7 +571,8 @@ static bool run80(std::string const& fn, Toks& in, Out& impl, Out& ref)
         {"fmax", [](L x, L y) -> L { return etl::fmax(x, y); }, ref_fmax<L>},
         {"fdim", [](L x, L y) -> L { return etl::fdim(x, y); }, [](L x, L y) -> L { return std::fdim(x, y); }},
         {"fmod", [](L x, L y) -> L { return etl::fmod(x, y); }, [](L x, L y) -> L { return std::fmod(x, y); }},
-        {"remainder", [](L x, L y) -> L { return etl::remainder(x, y); }, [](L x, L y) -> L { return std::remainder(x, y); }},
+        {"remainder", [](L x, L y) -> L { L r = etl::remainder(x, y); return r == 0.0L ? 0.0L : r; },
+            [](L x, L y) -> L { L r = std::remainder(x, y); return r == 0.0L ? 0.0L : r; }},
         {"midpoint", [](L x, L y) -> L { return etl::midpoint(x, y); }, [](L x, L y) -> L { return std::midpoint(x, y); }},
     };
     for (auto const& e : b2) {
